@@ -115,6 +115,12 @@ def meta_worlds(tier, seed):
     """C17: a world and transformed presentations of it"""
     n = 40 if tier == "quick" else 800
     out = []
+    # adding readable candidates never reduces what is recovered: the same piece with few and with very many candidates
+    for k, grp in ((3, -1), (40, -1), (260, -1)) + (((700, -1),) if tier == "thorough" else ()):
+        w = W.gen_world_many_candidates(Rng(seed, "c17-many", k), k)
+        w.group = grp
+        w.export_only = True       # the candidate sets differ on purpose: only the export subtree is compared
+        out.append(w)
     for i in range(n):
         rng = Rng(seed, "c17", i)
         w = W.gen_world(rng)
@@ -150,6 +156,15 @@ def compare_groups(cases):
             byg.setdefault(g, []).append(c)
     for g, cs in byg.items():
         base = cs[0].result
+        if getattr(base.world, "export_only", False):
+            exp = base.world.export
+            ref = {p: v[0] for p, v in base.after_files.items() if p[:len(exp)] == exp}
+            for c in cs[1:]:
+                tree = {p: v[0] for p, v in c.result.after_files.items() if p[:len(exp)] == exp}
+                if tree != ref:
+                    c.fails = c.fails + ["c17-more-candidates-recover-less"]
+                    c.base = base
+            continue
         ref = {p: v[0] for p, v in base.after_files.items()}
         ref_fix = None
         for c in cs[1:]:
@@ -164,11 +179,14 @@ def compare_groups(cases):
                     c.result.world.tag += " (equal after re-running to idle)"
     return cases
 
-EXTRA_MODULES = {"C02": ["TB.Props.C02run"], "C16": ["TB.Props.C16run"]}
+EXTRA_MODULES = {"C02": ["TB.Props.C02run"], "C16": ["TB.Props.C16run"], "C04": ["TB.Props.C04a"], "C15": ["TB.Props.C04a"]}
 
 PROPS = {
-    "C01": dict(module="TB.Props.C01", theorems=["C01_write_sound", "C01_gate", "C01_writer_cursor", "C01_run"], clauses=["c01-"], worlds=lambda t, s: worlds_default(t, s, "c01", 400, 8000, tweak_threads)),
-    "C02": dict(module="TB.Props.C02", theorems=["C02_search_sound", "C02_search_complete", "C02_piece"], clauses=["c02-"], worlds=lambda t, s: worlds_default(t, s, "c02", 400, 8000, tweak_threads)),
+    "C01": dict(module="TB.Props.C01", theorems=["C01_write_sound", "C01_gate", "C01_writer_cursor", "C01_run"], clauses=["c01-"],
+                worlds=lambda t, s: [W.gen_world_misfiled(Rng(s, "c01-misfiled", i)) for i in range(60 if t == "quick" else 1200)]
+                                    + worlds_default(t, s, "c01", 400, 8000, tweak_threads)),
+    "C02": dict(module="TB.Props.C02", theorems=["C02_search_sound", "C02_search_complete", "C02_piece"], clauses=["c02-"],
+                worlds=lambda t, s: [W.gen_world_many_candidates(Rng(s, "c02-many", k), k) for k in (2, 260)] + worlds_default(t, s, "c02", 400, 8000, tweak_threads)),
     "C03": dict(module="TB.Props.C03", theorems=["C03_confined", "C03_readonly", "C03_plain"], clauses=["c03-"], worlds=lambda t, s: worlds_default(t, s, "c03", 300, 6000, tweak_threads),
                 unit_stream=lambda t, s: unit.load_stream("quick", s)[: 3000 if t == "quick" else 8000]),
     "C04": dict(module="TB.Props.C04", theorems=["C04_export_first", "C04_skip", "C04b_untouched"], clauses=["c04-"], worlds=lambda t, s: worlds_default(t, s, "c04", 300, 6000, tweak_threads)),
